@@ -1,0 +1,9 @@
+//go:build !verif
+
+package pool
+
+// Lifecycle hooks used by the verification harness; no-ops in normal builds.
+
+func verifOnRelease(*Pool, *Message)   {}
+func verifOnRecycle(*Pool, *Message)   {}
+func verifOnReacquire(*Pool, *Message) {}
